@@ -499,41 +499,59 @@ func r064(c *Ctx, r *R) {
 			r.Check(pc != nil && idx == 0 && nameMatches(callName(pc.Common()), ").Get"), "status:ipfs-arg", site.Call.Pos(), "IPFS is asked about the pin recorded in the state (mode-aware)", "IPFS is not asked about the recorded pin (its mode decides which pin type counts)")
 		}
 	}
-	// order of the arms in localStatus
-	fd, pkg := c.decl(r, "pintracker/stateless", "Tracker.localStatus")
-	if fd != nil {
-		ok := false
-		ast.Inspect(fd.Body, func(n ast.Node) bool {
-			sw, isSw := n.(*ast.SwitchStmt)
-			if !isSw || sw.Tag != nil {
-				return true
+	// order of the decisions in localStatus (on the SSA, so a switch, an
+	// if/else chain or early continues are the same thing): "remote" is
+	// decided only for pins that are not meta entries, and the IPFS listing
+	// is consulted only for pins that are neither
+	if f := c.fn(r, "pintracker/stateless", "Tracker.localStatus"); f != nil {
+		meta := c.constNamed("api", "MetaType")
+		remote := c.constNamed("api", "TrackerStatusRemote")
+		unexp := c.constNamed("api", "TrackerStatusUnexpectedlyUnpinned")
+		notMeta := func(g Guard) bool {
+			x, k, tme, isEq := eqConst(g.Cond)
+			if !isEq || meta == nil || !constant.Compare(k, token.EQL, meta) || tme == g.Branch {
+				return false
 			}
-			var order []string
-			for _, cl := range sw.Body.List {
-				cc := cl.(*ast.CaseClause)
-				if cc.List == nil {
-					order = append(order, "default")
-					continue
+			fl, _ := fieldLoad(x)
+			return fl != nil && fl.Name() == "Type"
+		}
+		notRemote := func(g Guard) bool { return gCall(g, false, "api.Pin).IsRemotePin") }
+		ok, nRemote, nIpfs := true, 0, 0
+		instrsDeep(f, func(i ssa.Instruction) {
+			switch x := i.(type) {
+			case *ssa.Store:
+				fl, _ := fieldOfAddrValue(x.Addr)
+				k, isK := constOf(x.Val)
+				if fl == nil || fl.Name() != "Status" || !isK || k == nil {
+					return
 				}
-				e := cc.List[0]
 				switch {
-				case strings.Contains(types.ExprString(e), "MetaType"):
-					order = append(order, "meta")
-				case func() bool {
-					call, ok := e.(*ast.CallExpr)
-					return ok && strings.HasSuffix(funcFullName(pkg, call), "api.Pin).IsRemotePin")
-				}():
-					order = append(order, "remote")
-				default:
-					order = append(order, "ipfs")
+				case remote != nil && constant.Compare(k, token.EQL, remote):
+					nRemote++
+					if !guardedBy(x.Block(), notMeta) {
+						ok = false
+					}
+				case unexp != nil && constant.Compare(k, token.EQL, unexp):
+					nIpfs++
+					if !guardedBy(x.Block(), notMeta) || !guardedBy(x.Block(), notRemote) {
+						ok = false
+					}
+				}
+			case *ssa.MapUpdate:
+				// the listing's own entry is taken over
+				if l, _ := mapLookupOf(x.Value); l != nil {
+					nIpfs++
+					if !guardedBy(x.Block(), notMeta) || !guardedBy(x.Block(), notRemote) {
+						ok = false
+					}
 				}
 			}
-			if len(order) >= 3 && order[0] == "meta" && order[1] == "remote" {
-				ok = true
-			}
-			return true
 		})
-		r.Check(ok, "statusall:order", fd.Pos(), "localStatus decides meta, then remote, then IPFS", "localStatus does not decide meta before remote before IPFS: the two views disagree for pins that are both")
+		if nRemote == 0 || nIpfs == 0 {
+			r.Und("statusall:order", f.Pos(), "localStatus: the remote / IPFS decisions were not recognised")
+		} else {
+			r.Check(ok, "statusall:order", f.Pos(), "localStatus decides meta, then remote, then IPFS", "localStatus does not decide meta before remote before IPFS: the two views disagree for pins that are both")
+		}
 	}
 }
 
